@@ -668,6 +668,530 @@ def shard_undefined(col, shard_i):
                           {'oracle': 'undefined rule references are reported at compile time', 'grammar': g, 'outcome': outcome})
 
 
+# ------------------------------------------------------------------ lexical families
+# Grammar TEXTS whose regular expressions / constants are written the ways people write them (the IR printer only ever writes
+# single-line /../ patterns from a fixed pool and four constants): regexes with layout in front of / behind them, spanning lines
+# (verbose), with inline flags in every position, with raw control characters, quotes, slashes, wide characters, valid escapes and
+# the usual slips (stray parenthesis, bad flag, bad escape ...), in every regex syntax and every place a regex can stand (pattern
+# element in several contexts, @@whitespace / @@comments / @@eol_comments), in grammar texts with LF / CRLF / CR line ends; and
+# constants that are EVALUATED (interpolation, expressions, re-evaluated literals, unsafe / broken expressions) over captured
+# values of every type (str incl. characters outside ASCII / Latin-1 / the BMP, int, float, bool, list, None, nested AST).
+EOLS = ['\n', '\n', '\n', '\r\n', '\r\n', '\r']
+RX_PIECES = [r'\d+', r'[a-z]+', r'[0-9]+', r'(?:[.][0-9]+)?', r'\w+', r'x*', r'[ab]', r'(a)(b)?', r'[^,\s]+', r'a|b', r'\bab', r'e\d+', r'(?:a|b)+', r'[.]']
+RX_LEADS = [' ', '  ', '\t', '\n', '\n    ', ' \n\t', '\x0c']
+RX_FLAGS = ['i', 'x', 's', 'm', 'a', 'u', 'ix', 'ms', 'L', 'z', '-i', 'i-s', 'ia', '']
+RX_CTRL = ['\r', '\r', '\t', '\x0b', '\x0c', '\x08', '\x07', '\x00', '\x1c', '\x1b', '\x7f', '\x85', '\u2028', '\xa0']
+RX_EXTRA = {
+    'break': [')', '(', '[', 'a{2,1}', r'\q', '(?P<n>a)(?P<n>b)', '(?<=a*)b', r'(a)\2', '(?P=nope)', 'a**', '(?#c', '(?', '(?P<1>a)', '[z-a]',
+              r'\N{nope}', '(?i', r'\x1', '\\', '*', '+?+', '(?<a', '[[:alpha:]', r'\8', '(?(1)a|b|c)', '{,'],
+    'quote': ["'", '"', '[\'"]', r"\'", r'\"', '\'"\'', '"\'"', "''" + "'", '""' + '"', r"\\'", r'[^"]*', "'?", "\"'\"'\""],
+    'slash': [r'\/', r'[\/]', r'\\\/', '/'],
+    'wide': ['[а-я]+', 'ł', '世', '\U0001f600?', 'é', '[\u0300-\u036f]*', 'ß', '\ufeff?'],
+    'escape': [r'\n', r'\r', r'\t', r'\\', r'\x41', r'\u0041', r'\N{BULLET}', r'\.', r'\Z', r'\A', r'\r?\n', r'[\r\n]+', r'\ ', r'\-', r'\#', r'\\\\', r'\0', r'\07'],
+    'brace': ['{', '}', 'a{2}', '{n}', '{{', 'a{,2}', '{0}'],
+    'group': ['(?P<n>a)', '(?P<n>a)(?P=n)', r'(a)\1', '(?:)', '()', '(?=a)', '(?!b)', '(?<=a)', '(?i:a)', '(?-i:a)', '(?s-i:.)', '(?>a)', 'a*+', '(?(1)a|b)'],
+    'comment': ['(?#note)', '# tail', ' # tail', '(?# a / b )'],
+}
+RX_SLOTS = ['pattern', 'pattern', 'pattern', 'named', 'choice', 'skipto', 'lookahead', 'join', 'twice', 'whitespace', 'comments', 'eol_comments',
+            'whitespace-string', 'token']
+RX_SYNTAX = ['/', '/', '?"', "?'", '?/']
+
+
+def re_unescaped(txt, ch):
+    import re as _re
+    return _re.search(r'(?<!\\)(?:\\\\)*' + _re.escape(ch), txt) is not None
+
+
+def gen_rx_spec(rng):
+    rx = {'pieces': [rng.choice(RX_PIECES) for _ in range(rng.choice([1, 2, 2, 3]))], 'lead': '', 'trail': '', 'flag': None, 'verbose': False, 'extra': []}
+    if rng.random() < 0.3:
+        rx['lead'] = rng.choice(RX_LEADS)
+    if rng.random() < 0.15:
+        rx['trail'] = rng.choice(RX_LEADS)
+    if rng.random() < 0.45:
+        rx['flag'] = (rng.choice(['start', 'start', 'mid', 'end']), rng.choice(RX_FLAGS))
+    if rng.random() < 0.3:
+        rx['verbose'] = True
+        if rng.random() < 0.7:
+            rx['flag'] = (rng.choice(['start', 'start', 'start', 'mid']), rng.choice(['x', 'x', 'ix', 'xs']))
+    for _ in range(rng.choice([0, 0, 1, 1, 2])):
+        kind = rng.choice(['ctrl', 'ctrl'] + sorted(RX_EXTRA))
+        if kind == 'ctrl':
+            ch = rng.choice(RX_CTRL)
+            piece = rng.choice(['[ %s]*', '%s?', '%s', '[^%s]', '(?:%s|,)']) % ch
+        else:
+            piece = rng.choice(RX_EXTRA[kind])
+        rx['extra'].append((kind, piece, rng.randint(0, 3)))
+    spec = {'fam': 'regex', 'rx': rx, 'slot': rng.choice(RX_SLOTS), 'eol': rng.choice(EOLS)}
+    txt = rx_text(rx, spec['eol'])
+    ok = [s for s in ('/', '?"', "?'", '?/')
+          if not ((s in ('/', '?/') and re_unescaped(txt, '/')) or (s in ('?"', "?'") and (s[1] in txt or '\n' in txt or '\r' in txt)))]
+    spec['syntax'] = rng.choice(ok) if ok and rng.random() < 0.8 else rng.choice(RX_SYNTAX)
+    return spec
+
+
+def rx_text(rx, eol):
+    pieces = list(rx['pieces'])
+    for _kind, piece, at in rx['extra']:
+        pieces.insert(min(at, len(pieces)), piece)
+    flag = rx.get('flag')
+    ftxt = '' if not flag else ('(?' + flag[1] + ')')
+    if flag and flag[0] == 'mid':
+        pieces.insert(max(1, len(pieces) // 2), ftxt)
+    if flag and flag[0] == 'end':
+        pieces.append(ftxt)
+    head = ftxt if flag and flag[0] == 'start' else ''
+    if rx['verbose']:
+        body = ''.join(f'\n    {p}' + ('   # part' if i % 2 == 0 else '') for i, p in enumerate(pieces)) + '\n'
+    else:
+        body = ''.join(pieces)
+    # the line breaks of the layout are those of the grammar text (a CRLF file has a CR inside its multi-line expressions)
+    return rx['lead'].replace('\n', eol) + head + body.replace('\n', eol) + rx['trail'].replace('\n', eol)
+
+
+def rx_quote(txt, syntax):
+    if syntax == '/':
+        return '/' + txt + '/'
+    if syntax == '?/':
+        return '?/' + txt + '/?'
+    if syntax == "'":
+        return "'" + txt + "'"
+    return syntax + txt + syntax[1]
+
+
+def regex_spec_text(spec):
+    eol = spec['eol']
+    slot = spec['slot']
+    q = rx_quote(rx_text(spec['rx'], eol), "'" if slot in ('whitespace-string', 'token') else spec['syntax'])
+    lines = ['@@grammar :: L']
+    if slot in ('whitespace', 'comments', 'eol_comments', 'whitespace-string'):
+        lines += [f'@@{slot.split("-")[0]} :: {q}', "start = {/\\w+/ | ',' | '.'}+ $ ;"]
+    elif slot in ('pattern', 'token'):      # token: the same text as a string literal (escapes are evaluated, quotes end it)
+        lines += ['start = {item}+ $ ;', '', f"item = {q} | ',' ;"]
+    elif slot == 'named':
+        lines += [f"start = ','.{{n+:{q}}}+ $ ;"]
+    elif slot == 'choice':
+        lines += [f"start = {{{q} 'b' | 'c' {q} | /./}} $ ;"]
+    elif slot == 'skipto':
+        lines += [f"start = ->{q} {{/./}} $ ;"]
+    elif slot == 'lookahead':
+        lines += [f"start = {{!{q} /./ | &{q} 'a'}}+ $ ;"]
+    elif slot == 'join':
+        lines += [f"start = {q}%{{/\\w/}}+ $ ;"]
+    else:   # twice: the same expression in two rules (the compiled-pattern caches see it twice)
+        lines += ['start = {a | b}+ $ ;', f'a = {q} ;', f"b = '!' {q} ;"]
+    return eol.join(lines) + eol
+
+
+def regex_spec_class(spec, excname=None):
+    import re as _re
+    import warnings
+    rx = spec['rx']
+    eoltag = [] if spec['eol'] == '\n' else ['eol=' + ('crlf' if spec['eol'] == '\r\n' else 'cr')]
+    raw = rx_text(rx, spec['eol'])
+
+    def valid(s):
+        with warnings.catch_warnings():
+            warnings.simplefilter('ignore')
+            try:
+                _re.compile(s)
+                return True
+            except Exception:  # noqa
+                return False
+    if spec['slot'] == 'whitespace-string' and valid(raw) and excname == 'error':
+        # re.error itself escaped: the expression is invalid once the escapes of the string literal are evaluated
+        return '+'.join([spec['slot'], 'invalid-regex-after-escapes'] + eoltag)
+    if spec['slot'] != 'token' and not valid(raw):
+        # an expression that Python's re rejects as written: which slip makes it invalid does not matter for the class
+        return '+'.join([spec['slot'], 'invalid-regex' + ('-valid-when-stripped' if valid(raw.strip()) else '')] + eoltag)
+    tags = [spec['slot'], 'syntax' + (spec['syntax'] if spec['slot'] not in ('whitespace-string', 'token') else "'")]
+    if rx['lead']:
+        tags.append('lead-nl' if '\n' in rx['lead'] else 'lead')
+    if rx['trail']:
+        tags.append('trail')
+    if rx['flag']:
+        tags.append('flag-' + rx['flag'][0] + ('' if set(rx['flag'][1]) <= set('imsxau') and rx['flag'][1] else '-odd'))
+    if rx['verbose']:
+        tags.append('multiline')
+    for kind, piece, _ in rx['extra']:
+        if kind != 'ctrl':
+            tags.append(kind)
+        else:
+            ch = max(c for c in piece if ord(c) < 32 or ord(c) >= 127)
+            # the characters str.splitlines() breaks at, beyond the ones Python source code breaks at, are one class
+            tags.append('ctrl-linesep' if ch in '\x1c\x1d\x1e\x85\u2028\u2029' else 'ctrl-%02x' % ord(ch))
+    return '+'.join(list(dict.fromkeys(tags)) + eoltag)
+
+
+def regex_spec_reductions(spec):
+    import copy
+    rx = spec['rx']
+
+    def var(**kw):
+        s = copy.deepcopy(spec)
+        for k, v in kw.items():
+            if k in s['rx']:
+                s['rx'][k] = v
+            else:
+                s[k] = v
+        return s
+    if spec['eol'] != '\n':
+        yield var(eol='\n')
+    for i in range(len(rx['extra'])):
+        yield var(extra=rx['extra'][:i] + rx['extra'][i + 1:])
+    if rx['verbose']:
+        yield var(verbose=False)
+    if rx['flag']:
+        yield var(flag=None)
+    if rx['lead']:
+        yield var(lead='')
+    if rx['trail']:
+        yield var(trail='')
+    if len(rx['pieces']) > 1:
+        yield var(pieces=rx['pieces'][:1])
+    if spec['slot'] not in ('pattern', 'whitespace-string', 'token'):
+        yield var(slot='pattern')
+    if spec['syntax'] != '/':
+        yield var(syntax='/')
+
+
+RX_TEXT_BITS = ['a', 'b', 'ab', '1', '42', '2.5', 'e7', ' ', '  ', ',', '.', '\n', '\r', '\r\n', '\t', 'x', "'", '"', '/', '!', 'c', 'é', 'я', 'ł', '世', '#', '# c\n', '/*', '*/',
+                '\x0b', '\x0c', '\x00', '\x1c', '\x85', '\u2028', '{', '(']
+
+# ---- evaluated constants
+CAP_KINDS = {
+    'word': (r'§:/\w+/', None), 'nonspace': (r'§:/\S+/', None), 'line': (r'§:/[^\n]*/', None), 'dot': ('§:/./', None),
+    'int': ('§:@int', ['42', '-7', '0', '٣', '1_0']), 'float': ('§:@float', ['2.5', '1e3', '-.5', '7']), 'bool': ('§:@bool', ['true', 'False', 'true']),
+    'name': ('§:@name', None), 'tok': ("§:'a'", ['a']), 'list': (r'§+:/\w/', None), 'closure': (r'§:{/[^\s,]/}', None), 'opt': (r'[§:/\d+/]', ['', '7', '12']),
+    'rule': ('§:sub', None), 'rules': ('§:{sub}+', None), 'group': (r'§:(/\w/ /\w/)', None),
+}
+WIDE_WORDS = ['world', 'x', 'a', 'ab1', 'señor', 'é', 'ÿ', 'мир', '世界', 'ałb', 'ł', '\U0001f600', 'a\u0301', 'ǅ', 'ﬁ', '٣', '²', 'İ', 'ß', '\u0100', 'nn', 'n', 'm', 'v',
+              'True', 'None', '42', '0x1F', 'a' * 12, 'я' * 10]
+EXPR_WORDS = ['{n}', '{m}', '{n}{n}', 'n+n', '1/0', '{', '}', "'", '"', '{n!r}', 'n*2', '[n]', '(n)', "'a'", '"{n}"', '{{n}}', '{nope}', '__import__', 'n.x', '()', 'n,',
+              '`', '\\', '\\n', '{n:{n}}', "'{m}'", '1e999', '-', '...', 'lambda:n', '#', '{n.x}', '{n[0]}', 'я+1', '{я}', '世()']
+CONST_TEMPLATES = [
+    ('fstr', '{§N}'), ('fstr', 'hello {§N}'), ('fstr', '{§N}{§M}'), ('fstr', '{§N} and {§M}!'), ('fstr-conv', '{§N!r}'), ('fstr-conv', '{§N!a}'), ('fstr-fmt', '{§N:>5}'),
+    ('fstr-fmt-bad', '{§N:d}'), ('fstr-index', '{§N[0]}'), ('fstr-attr', '{§N.x}'), ('fstr-missing', '{nope}'), ('fstr-expr', '{§N + §M}'), ('fstr-call', '{len(§N)}'),
+    ('fstr-nested', '{§N:{§M}}'), ('fstr-escaped', '{{§N}}'), ('fstr-eq', '{§N=}'),
+    ('expr-name', '§N'), ('expr-name', '§M'), ('expr-add', '§N + §M'), ('expr-mul', '§N * 2'), ('expr-len', 'len(§N)'), ('expr-int', 'int(§N)'), ('expr-float', 'float(§N)'),
+    ('expr-div0', '1/0'), ('expr-div0', '1 % 0'), ('expr-index', '§N[5]'), ('expr-method', '§N.upper()'), ('expr-key', '§N["k"]'), ('expr-list', '[§N, §M]'), ('expr-tuple', '(§N, §M)'),
+    ('expr-cond', '§N if §N else §M'), ('expr-cmp', '§N < 3'), ('expr-neg', '-§N'), ('expr-str', 'str(§N)'), ('expr-ord', 'ord(§N)'), ('expr-chr', 'chr(1114112)'),
+    ('expr-sorted', 'sorted(§N)'), ('expr-dict', 'dict(§N)'), ('expr-set', '{§N}.pop()'), ('expr-max', 'max(§N)'), ('expr-sum', 'sum(§N)'), ('expr-repr', 'repr(§N)'),
+    ('expr-enc', '§N.encode("ascii")'), ('expr-fmt', '"%d" % §N'), ('expr-format', '"{0.x}".format(§N)'), ('expr-join', '",".join(§N)'), ('expr-undefined', 'nope'),
+    ('unsafe', "__import__('os')"), ('unsafe', '().__class__'), ('unsafe', 'lambda: 0'), ('unsafe', 'open("x")'), ('unsafe', '§N.__class__'), ('unsafe', 'exit()'),
+    ('unsafe', 'ValueError'), ('unsafe', 'type(§N)'),
+    ('broken', '{'), ('broken', '}'), ('broken', '{§N'), ('broken', '{}'), ('broken', '"abc'), ('broken', "it's"), ('broken', '1 +'), ('broken', '{§N!z}'), ('broken', '§N §M'),
+    ('broken', '\\'), ('broken', '{§N:'), ('broken', ')'),
+    ('literal', '42'), ('literal', "'q'"), ('literal', '0x1F'), ('literal-inf', '1e999'), ('literal-inf', '-1e999'), ('literal', 'None'), ('literal', 'True'), ('literal', '[1, 2]'), ('literal', ''),
+    ('literal', '   '), ('literal', '-0.0'), ('literal', '1_0'), ('literal', 'k'),
+    ('reeval', "'{§N}'"), ('reeval', '"§N"'), ('reeval', "'§N + §M'"), ('reeval', '"\'§N\'"'), ('reeval', "'1/0'"), ('reeval', '"{§N}{§M}"'),
+]
+CONST_FORMS = ['plain', 'plain', 'plain', 'triple', 'triple-lines', 'named', 'alert', 'over', 'named-list']
+CONST_PLACES = ['seq', 'seq', 'seq', 'closure', 'subrule', 'option', 'optional', 'lookahead']
+
+
+def gen_const_spec(rng):
+    names = ['n', 'm']
+    caps = [(names[i], rng.choice(sorted(CAP_KINDS))) for i in range(rng.choice([1, 1, 2]))]
+    consts = [(rng.choice(CONST_FORMS), ) + rng.choice(CONST_TEMPLATES) for _ in range(rng.choice([1, 1, 2, 3]))]
+    return {'fam': 'const', 'caps': caps, 'consts': consts, 'place': rng.choice(CONST_PLACES), 'eol': rng.choice(EOLS)}
+
+
+def const_spec_text(spec):
+    eol = spec['eol']
+    caps = spec['caps']
+    n = caps[0][0] if caps else 'n'
+    m = caps[-1][0] if caps else 'm'
+    capt = ' '.join(CAP_KINDS[k][0].replace('§', nm) for nm, k in caps)
+    parts = []
+    for form, _cls, tpl in spec['consts']:
+        t = tpl.replace('§N', n).replace('§M', m)
+        if form == 'triple':
+            c = '```' + t + '```'
+        elif form == 'triple-lines':
+            c = '```' + eol + '        ' + t + eol + '    ```'
+        else:
+            c = '`' + t + '`'
+        parts.append({'named': 'v:' + c, 'named-list': 'v+:' + c, 'alert': '^' + c, 'over': '@:' + c}.get(form, c))
+    ct = ' '.join(parts)
+    place = spec['place']
+    lines = ['@@grammar :: L']
+    if place == 'seq':
+        lines.append(f'start = {capt} {ct} $ ;')
+    elif place == 'closure':
+        lines.append(f"start = {{{capt} {ct} [',']}}+ $ ;")
+    elif place == 'subrule':
+        lines += [f'start = {capt} tail $ ;', f'tail = {ct} ;']
+    elif place == 'option':
+        lines.append(f"start = {capt} ({ct} 'z' | {ct}) $ ;")
+    elif place == 'optional':
+        lines.append(f'start = {capt} [{ct}] {{/./}} $ ;')
+    else:
+        lines.append(f'start = {capt} &({ct}) {ct} $ ;')
+    if any(k in ('rule', 'rules') for _, k in caps):
+        lines.append(r'sub = x:/\w/ y:[/\d/] ;')
+    return eol.join(lines) + eol
+
+
+def const_spec_class(spec, excname=None):
+    return ('caps=' + '+'.join(sorted({k for _, k in spec['caps']})) + ';consts=' + '+'.join(sorted({f + ':' + c for f, c, _ in spec['consts']}))
+            + ';' + spec['place'] + ('' if spec['eol'] == '\n' else ';eol=' + ('crlf' if spec['eol'] == '\r\n' else 'cr')))
+
+
+def const_spec_reductions(spec):
+    import copy
+
+    def var(**kw):
+        s = copy.deepcopy(spec)
+        s.update(kw)
+        return s
+    if spec['eol'] != '\n':
+        yield var(eol='\n')
+    for i in range(len(spec['consts'])):
+        if len(spec['consts']) > 1:
+            yield var(consts=spec['consts'][:i] + spec['consts'][i + 1:])
+    for i in range(len(spec['caps'])):
+        yield var(caps=spec['caps'][:i] + spec['caps'][i + 1:])
+    if spec['place'] != 'seq':
+        yield var(place='seq')
+    for i, (f, c, t) in enumerate(spec['consts']):
+        if f != 'plain':
+            yield var(consts=spec['consts'][:i] + [('plain', c, t)] + spec['consts'][i + 1:])
+
+
+def const_text(rng, spec):
+    words = []
+    for _nm, k in spec['caps']:
+        samples = CAP_KINDS[k][1]
+        r = rng.random()
+        if samples is not None and r < 0.8:
+            words.append(rng.choice(samples))
+        elif r < 0.75:
+            words.append(rng.choice(WIDE_WORDS))
+        else:
+            words.append(rng.choice(EXPR_WORDS))
+    # KNOWN (probed by shard_const_probes, one fixed case per shape): a captured text that interpolates a capture again ('{n}..') is
+    # evaluated over and over by constant(); the texts of this class are left to the probes because every one of them costs a deadline
+    words = [w if not self_referential(w) else unrefer(w) for w in words]
+    text = ' '.join(words)
+    r = rng.random()
+    if r < 0.1:
+        text += rng.choice([' z', ',', ' ', '\n', ' я', ' {q}'])
+    elif r < 0.2:
+        text = ''.join(rng.choice(UNI + WIDE_WORDS[:12]) for _ in range(rng.randint(0, 5)))
+    return text
+
+
+def self_referential(word):
+    """The word, evaluated as a constant expression, reads a capture (n, m, v) again - and is not just that name."""
+    import re as _re
+    return word not in ('n', 'm', 'v') and _re.search(r'(?<![\w.])[nmv](?!\w)', word) is not None
+
+
+def unrefer(word):
+    import re as _re
+    return _re.sub(r'(?<![\w.])[nmv](?!\w)', 'q', word)
+
+
+CONST_PROBES = {
+    # name: (grammar, text)  - the constant's value is the INPUT text, which constant() evaluates again until it stops changing
+    'input-text-grows': ("start = n:/\\S+/ `{n}` $ ;\n", '{n}{n}'),
+    'input-text-grows-by-one': ("start = n:/\\S+/ `{n}` $ ;\n", '{n}x'),
+    'input-text-cycles': ("start = n:/\\S+/ `{n}` $ ;\n", '{{n}}'),
+}
+
+
+def shard_const_probes(col, shard_i):
+    name = sorted(CONST_PROBES)[shard_i]
+    gtext, text = CONST_PROBES[name]
+    out = compile_outcome(gtext)
+    col.case(['const-probe', name], nontrivial=True)
+    if out[0] != 'ok':
+        col.violation(f'oracle:const-probe-does-not-compile:{name}', 'a probe grammar does not compile', {'grammar': gtext, 'outcome': out[0]})
+        return
+    res = run_variant(out[1], text, {'input': 'text', 'parse_kw': {}}, 3)
+    col.count(f'const-probe.{name}.{res[0]}')
+    if res[0] == 'tatsu':
+        check_failure(col, res[1], text, 'const-probe', {'grammar': gtext, 'text': text})
+    elif res[0] != 'ok':
+        col.violation(f'oracle:{"hang" if res[0] == "timeout" else res[0]}:const-probe:{name}', 'a parse does not terminate / raises a foreign exception',
+                      {'oracle': 'no hang', 'case': {'grammar': gtext, 'text': text}, 'outcome': res[0], 'exception': repr(res[1])[:200]})
+
+
+def text_class(text):
+    tags = []
+    if not text:
+        tags.append('empty')
+    if any(ord(c) > 255 for c in text):
+        tags.append('wide')
+    elif any(ord(c) > 127 for c in text):
+        tags.append('latin1')
+    if any(ord(c) < 32 or ord(c) == 127 for c in text):
+        tags.append('ctrl')
+    if any(c in text for c in '{}'):
+        tags.append('braces')
+    return '+'.join(tags) or 'ascii'
+
+
+SPEC_FAMILIES = {'regex': (regex_spec_text, regex_spec_class, regex_spec_reductions), 'const': (const_spec_text, const_spec_class, const_spec_reductions)}
+
+
+def compile_outcome(txt, seconds=10):
+    import tatsu
+    from tatsu.exceptions import TatSuException
+
+    def run():
+        try:
+            return ('ok', tatsu.compile(txt, name='G'))
+        except TatSuException as e:
+            return ('tatsu', e)
+        except RecursionError as e:
+            return ('recursion', e)
+        except Exception as e:  # noqa
+            return ('foreign', e)
+    return R.with_timeout(run, seconds)
+
+
+def spec_target(spec, tname):
+    txt = SPEC_FAMILIES[spec['fam']][0](spec)
+    out = compile_outcome(txt, 5)
+    if out[0] != 'ok':
+        return txt, None
+    t = out[1]
+    if tname == 'generated':
+        t = generated_parser(txt)
+        if isinstance(t, tuple):
+            return txt, None
+    return txt, t
+
+
+def shrink_spec(spec, same, budget):
+    """Drop the features of a lexical spec one at a time while `same(spec)` holds."""
+    to_text, _, reductions = SPEC_FAMILIES[spec['fam']]
+    changed = True
+    while changed and budget > 0:
+        changed = False
+        cur = to_text(spec)
+        for cand in reductions(spec):
+            if budget <= 0:
+                break
+            if to_text(cand) == cur:
+                continue
+            budget -= 1
+            if same(cand):
+                spec, changed = cand, True
+                break
+    return spec
+
+
+def judge_spec(col, spec, gtext, target, tname, text, v):
+    fam = spec['fam']
+    out = run_variant(target, text, v)
+    kind = v['input'] if v['input'] != 'textlines' else 'textlines-object'
+    col.count(f'{fam}.{tname}.{kind}.{out[0]}')
+    if out[0] == 'ok':
+        return
+    where = f'{fam}:{tname}:{kind}'
+    if out[0] == 'tatsu':
+        check_failure(col, out[1], text, where, {'grammar': gtext, 'text': text, 'variant': repr(v)})
+        return
+    cls = out[0]
+    excname = type(out[1]).__name__ if out[1] is not None else 'timeout'
+    hang = cls == 'timeout'
+
+    def same(tg, t, vv):
+        o = run_variant(tg, t, vv, 2)
+        return o[0] == cls and (hang or type(o[1]).__name__ == excname)
+    stext, sv = shrink_variant(target, text, v, same, budget=6 if hang else 14)
+
+    def same_spec(cand):
+        _, tg = spec_target(cand, tname)
+        return tg is not None and same(tg, stext, sv)
+    sspec = shrink_spec(spec, same_spec, 4 if hang else 20)
+    sgtext, starget = spec_target(sspec, tname)
+    if starget is not None and not hang:
+        stext, sv = shrink_variant(starget, stext, sv, same, budget=8)
+    case = {'grammar': sgtext, 'text': stext, 'target': tname, 'variant': repr(sv), 'original': {'grammar': gtext, 'text': text, 'variant': repr(v)}}
+    vc = variant_class(sv)
+    tail = ':' + SPEC_FAMILIES[fam][1](sspec) + ':text=' + text_class(stext) + (':' + vc if vc else '')
+    if hang:
+        col.hangs = getattr(col, 'hangs', 0) + 1
+        col.violation(f'oracle:hang:{where}{tail}', 'a parse does not terminate', {'oracle': 'no hang', 'case': case})
+    elif cls == 'foreign':
+        col.violation(f'oracle:foreign-exception:{where}:{excname}{tail}', f'parse raised {excname}, not a TatSu error',
+                      {'oracle': 'only TatSu exceptions', 'case': case, 'exception': repr(out[1])[:300]})
+    else:
+        col.violation(f'oracle:recursion:{where}{tail}', 'unbounded recursion on a non-left-recursive grammar', {'oracle': 'bounded recursion', 'case': case})
+
+
+def shard_lexical(col, shard_i, nspecs, ninputs):
+    rng = col.rng
+    for si in range(nspecs):
+        fam = 'regex' if si % 2 == 0 else 'const'
+        spec = gen_rx_spec(rng) if fam == 'regex' else gen_const_spec(rng)
+        to_text, to_class, _ = SPEC_FAMILIES[fam]
+        gtext = to_text(spec)
+        for t in to_class(spec).replace(';', '+').replace('caps=', '').replace('consts=', '').split('+'):
+            col.count(f'{fam}.feature.' + t)
+        col.case(['lexical-compile', gtext], nontrivial=True)
+        out = compile_outcome(gtext)
+        col.count(f'{fam}.compile.' + out[0])
+        if out[0] == 'tatsu':
+            check_failure(col, out[1], gtext, f'{fam}:compile', {'grammar': gtext})
+            continue
+        if out[0] != 'ok':
+            cls = out[0]
+            excname = type(out[1]).__name__ if out[1] is not None else 'timeout'
+
+            def same_spec(cand, cls=cls, excname=excname):
+                o = compile_outcome(to_text(cand), 3)
+                return o[0] == cls and (cls == 'timeout' or type(o[1]).__name__ == excname)
+            sspec = shrink_spec(spec, same_spec, 3 if cls == 'timeout' else 30)
+            col.violation(f'oracle:compile-{cls}:{fam}:{excname}:{to_class(sspec, excname)}', f'compiling a grammar text ended in {excname}, not a TatSu error',
+                          {'oracle': 'compile raises only TatSu errors', 'grammar': to_text(sspec), 'original': gtext, 'exception': repr(out[1])[:300] if out[1] else None})
+            continue
+        m = out[1]
+        p = None
+        if rng.random() < 0.35:
+            p = generated_parser(gtext)
+            if isinstance(p, tuple):
+                col.count(f'{fam}.generated.' + p[0])
+                if p[0] != 'codegen-error' or p[1] not in TATSU_NAMES():
+                    def same_gen(cand, p=p):
+                        ctxt = to_text(cand)
+                        if compile_outcome(ctxt, 3)[0] != 'ok':
+                            return False
+                        q = generated_parser(ctxt)
+                        return isinstance(q, tuple) and q[:2] == p[:2]
+                    sspec = shrink_spec(spec, same_gen, 30)
+                    col.violation(f'oracle:codegen:{fam}:{p[0]}:{p[1]}:{to_class(sspec)}', 'generating the parser of a grammar that compiles raised a foreign exception / hung',
+                                  {'oracle': 'only TatSu exceptions', 'grammar': to_text(sspec), 'original': gtext, 'outcome': p})
+                p = None
+        for k in range(ninputs):
+            if getattr(col, 'hangs', 0) >= 2:
+                col.count('lexical.stopped-after-two-hangs')
+                return
+            if fam == 'regex':
+                text = ''.join(rng.choice(RX_TEXT_BITS) for _ in range(rng.randint(0, 7))) if k else ''
+            else:
+                text = const_text(rng, spec)
+            variants = [{'input': 'text', 'parse_kw': {}}, {'input': 'buffer', 'parse_kw': {'parseinfo': True}}]
+            r = rng.random()
+            if r < 0.3:
+                variants.append({'input': 'textlines', 'parse_kw': {'parseinfo': rng.random() < 0.5}})
+            elif r < 0.45:
+                variants.append({'input': 'text', 'parse_kw': {'trace': True, 'colorize': rng.random() < 0.5}})
+            elif r < 0.55:
+                variants.append({'input': 'text', 'parse_kw': {'memoization': False}})
+            for v in variants:
+                col.case(['lexical', gtext, text, repr(v)], nontrivial=bool(text))
+                judge_spec(col, spec, gtext, m, 'model', text, v)
+            if p is not None:
+                v = rng.choice(variants)
+                col.case(['lexical-gen', gtext, text, repr(v)], nontrivial=bool(text))
+                judge_spec(col, spec, gtext, p, 'generated', text, v)
+
+
 def main():
     chk = Check(PID)
     chk.rule = ('M1: the five character-level matchers on ALL strings over {1 _ + - . e a superscript-2 arabic-3 space} up to length 4 (quick) / 5 '
@@ -680,7 +1204,11 @@ def main():
                 'start=<another rule>, the console tracer) x {model.parse, the generated parser class (one reused instance)}; compile: generated grammar texts (plain and '
                 'with rule shapes / directives) with 1-3 random insertions/deletions/transpositions, and parses with the mutated texts that are '
                 'accepted. Checked: exception class, hang, recursion, failure position/line info, message renders. Failing configurations are shrunk '
-                '(settings dropped, text halved) before the signature is taken.')
+                '(settings dropped, text halved) before the signature is taken. lexical: regular expressions as written (layout, multi-line, inline '
+                'flags in every position, raw control characters, quotes, slashes, wide characters, slips) in every regex syntax and place incl. the '
+                'directives and string forms, grammar texts with LF/CRLF/CR line ends; evaluated constants (interpolation, expressions, re-evaluated '
+                'literals, unsafe and broken expressions, all constant forms and places) over captures of every value type x texts outside ASCII / '
+                'Latin-1 / the BMP; compile, code generation, model and generated parser, shrunk feature by feature.')
     chk.trusted += ['Python int()/float() accept the literals [+-]?D(_?D)* with D = str.isdecimal (checked on every matched slice by M1)',
                     'unicode predicates are oracles per string; the engine-level and compile-level parts are implementation oracles']
     chk.coq()
@@ -691,11 +1219,15 @@ def main():
             vlib.run_sharded(chk, shard_matchers, 14, extra=(14, 4))
             vlib.run_sharded(chk, shard_engine, 14, extra=(60, 8))
             vlib.run_sharded(chk, shard_compile, 14, extra=(60,))
+            vlib.run_sharded(chk, shard_lexical, 14, extra=(120, 5))
+            vlib.run_sharded(chk, shard_const_probes, len(CONST_PROBES))
             vlib.run_sharded(chk, shard_undefined, 1, procs=1)
         else:
             vlib.run_sharded(chk, shard_matchers, 28, extra=(28, 5))
             vlib.run_sharded(chk, shard_engine, 28, extra=(150, 10))
             vlib.run_sharded(chk, shard_compile, 28, extra=(400,))
+            vlib.run_sharded(chk, shard_lexical, 28, extra=(400, 6))
+            vlib.run_sharded(chk, shard_const_probes, len(CONST_PROBES))
             vlib.run_sharded(chk, shard_undefined, 1, procs=1)
         chk.obligation('M1: matchers vs Matchers.v (exhaustive small scope)', 'correspondence',
                        not any(v['signature'].startswith('M1') for v in chk.violations))
